@@ -7,13 +7,20 @@ From DV Require Import Model.C02_Variation Model.C02_GenRt Proofs.C02_Variation 
 From DV Require Import Gen.C02_gen Proofs.C02_gen_equiv.
 Import ListNotations.
 
+(* rewrite the run hypothesis `gen_f ... = (s', res)` into the hand model's run *)
+Ltac to_model :=
+  match goal with
+  | H : gen_varAnd _ _ _ _ _ _ _ _ _ _ = _ |- _ => rewrite gen_varAnd_eq in H
+  | H : gen_varOr _ _ _ _ _ _ _ _ _ _ _ = _ |- _ => rewrite gen_varOr_eq in H
+  end.
+
 Lemma gen_and_parents_untouched :
   forall G F T ltb leb add one mate_o mut_o h0 pop, wf_heap h0 -> pop_ok h0 pop ->
   (forall k x y, ret_distinct (ma_r1 (mate_o k x y)) (ma_r2 (mate_o k x y))) ->
   forall cxpb mutpb d s' res,
   @gen_varAnd G F T ltb leb add one mate_o mut_o pop cxpb mutpb (start h0 d) = (s', res) ->
   untouched h0 pop (hp s').
-Proof. intros. rewrite ?gen_varAnd_eq, ?gen_varOr_eq in *. first [ solve [eapply and_parents_untouched; eassumption] | solve [eauto 8 using and_parents_untouched] ]. Qed.
+Proof. intros; to_model; first [ solve [eapply and_parents_untouched; eassumption] | solve [eauto 8 using and_parents_untouched] ]. Qed.
 
 Lemma gen_and_offspring_count :
   forall G F T ltb leb add one mate_o mut_o h0 pop, wf_heap h0 -> pop_ok h0 pop ->
@@ -21,7 +28,7 @@ Lemma gen_and_offspring_count :
   forall cxpb mutpb d s' res,
   @gen_varAnd G F T ltb leb add one mate_o mut_o pop cxpb mutpb (start h0 d) = (s', res) ->
   forall off, res = inr off -> length off = length pop.
-Proof. intros. rewrite ?gen_varAnd_eq, ?gen_varOr_eq in *. first [ solve [eapply and_offspring_count; eassumption] | solve [eauto 8 using and_offspring_count] ]. Qed.
+Proof. intros; to_model; first [ solve [eapply and_offspring_count; eassumption] | solve [eauto 8 using and_offspring_count] ]. Qed.
 
 Lemma gen_and_offspring_independent :
   forall G F T ltb leb add one mate_o mut_o h0 pop, wf_heap h0 -> pop_ok h0 pop ->
@@ -29,7 +36,7 @@ Lemma gen_and_offspring_independent :
   forall cxpb mutpb d s' res,
   @gen_varAnd G F T ltb leb add one mate_o mut_o pop cxpb mutpb (start h0 d) = (s', res) ->
   forall off, res = inr off -> independent h0 (hp s') off.
-Proof. intros. rewrite ?gen_varAnd_eq, ?gen_varOr_eq in *. first [ solve [eapply and_offspring_independent; eassumption] | solve [eauto 8 using and_offspring_independent] ]. Qed.
+Proof. intros; to_model; first [ solve [eapply and_offspring_independent; eassumption] | solve [eauto 8 using and_offspring_independent] ]. Qed.
 
 Lemma gen_and_varied_invalid :
   forall G F T ltb leb add one mate_o mut_o h0 pop, wf_heap h0 -> pop_ok h0 pop ->
@@ -37,7 +44,7 @@ Lemma gen_and_varied_invalid :
   forall cxpb mutpb d s' res,
   @gen_varAnd G F T ltb leb add one mate_o mut_o pop cxpb mutpb (start h0 d) = (s', res) ->
   forall off, res = inr off -> varied_invalid (hp s') (lg s') off.
-Proof. intros. rewrite ?gen_varAnd_eq, ?gen_varOr_eq in *. first [ solve [eapply and_varied_invalid; eassumption] | solve [eauto 8 using and_varied_invalid] ]. Qed.
+Proof. intros; to_model; first [ solve [eapply and_varied_invalid; eassumption] | solve [eauto 8 using and_varied_invalid] ]. Qed.
 
 Lemma gen_and_valid_is_parent_copy :
   forall G F T ltb leb add one mate_o mut_o h0 pop, wf_heap h0 -> pop_ok h0 pop ->
@@ -45,48 +52,48 @@ Lemma gen_and_valid_is_parent_copy :
   forall cxpb mutpb d s' res,
   @gen_varAnd G F T ltb leb add one mate_o mut_o pop cxpb mutpb (start h0 d) = (s', res) ->
   forall off, res = inr off -> valid_is_parent_copy h0 pop (hp s') (lg s') off.
-Proof. intros. rewrite ?gen_varAnd_eq, ?gen_varOr_eq in *. first [ solve [eapply and_valid_is_parent_copy; eassumption] | solve [eauto 8 using and_valid_is_parent_copy] ]. Qed.
+Proof. intros; to_model; first [ solve [eapply and_valid_is_parent_copy; eassumption] | solve [eauto 8 using and_valid_is_parent_copy] ]. Qed.
 
 Lemma gen_or_parents_untouched :
   forall G F T ltb mate_o mut_o h0 pop, wf_heap h0 -> pop_ok h0 pop ->
   forall leb add one lambda_ cxpb mutpb d s' res,
   @gen_varOr G F T ltb leb add one mate_o mut_o pop lambda_ cxpb mutpb (start h0 d) = (s', res) ->
   untouched h0 pop (hp s').
-Proof. intros. rewrite ?gen_varAnd_eq, ?gen_varOr_eq in *. first [ solve [eapply or_parents_untouched; eassumption] | solve [eauto 8 using or_parents_untouched] ]. Qed.
+Proof. intros; to_model; first [ solve [eapply or_parents_untouched; eassumption] | solve [eauto 8 using or_parents_untouched] ]. Qed.
 
 Lemma gen_or_offspring_count :
   forall G F T ltb mate_o mut_o h0 pop, wf_heap h0 -> pop_ok h0 pop ->
   forall leb add one lambda_ cxpb mutpb d s' res,
   @gen_varOr G F T ltb leb add one mate_o mut_o pop lambda_ cxpb mutpb (start h0 d) = (s', res) ->
   forall off, res = inr off -> length off = Z.to_nat lambda_.
-Proof. intros. rewrite ?gen_varAnd_eq, ?gen_varOr_eq in *. first [ solve [eapply or_offspring_count; eassumption] | solve [eauto 8 using or_offspring_count] ]. Qed.
+Proof. intros; to_model; first [ solve [eapply or_offspring_count; eassumption] | solve [eauto 8 using or_offspring_count] ]. Qed.
 
 Lemma gen_or_offspring_independent :
   forall G F T ltb mate_o mut_o h0 pop, wf_heap h0 -> pop_ok h0 pop ->
   forall leb add one lambda_ cxpb mutpb d s' res,
   @gen_varOr G F T ltb leb add one mate_o mut_o pop lambda_ cxpb mutpb (start h0 d) = (s', res) ->
   forall off, res = inr off -> independent h0 (hp s') off.
-Proof. intros. rewrite ?gen_varAnd_eq, ?gen_varOr_eq in *. first [ solve [eapply or_offspring_independent; eassumption] | solve [eauto 8 using or_offspring_independent] ]. Qed.
+Proof. intros; to_model; first [ solve [eapply or_offspring_independent; eassumption] | solve [eauto 8 using or_offspring_independent] ]. Qed.
 
 Lemma gen_or_varied_invalid :
   forall G F T ltb mate_o mut_o h0 pop, wf_heap h0 -> pop_ok h0 pop ->
   forall leb add one lambda_ cxpb mutpb d s' res,
   @gen_varOr G F T ltb leb add one mate_o mut_o pop lambda_ cxpb mutpb (start h0 d) = (s', res) ->
   forall off, res = inr off -> varied_invalid (hp s') (lg s') off.
-Proof. intros. rewrite ?gen_varAnd_eq, ?gen_varOr_eq in *. first [ solve [eapply or_varied_invalid; eassumption] | solve [eauto 8 using or_varied_invalid] ]. Qed.
+Proof. intros; to_model; first [ solve [eapply or_varied_invalid; eassumption] | solve [eauto 8 using or_varied_invalid] ]. Qed.
 
 Lemma gen_or_valid_is_parent_copy :
   forall G F T ltb mate_o mut_o h0 pop, wf_heap h0 -> pop_ok h0 pop ->
   forall leb add one lambda_ cxpb mutpb d s' res,
   @gen_varOr G F T ltb leb add one mate_o mut_o pop lambda_ cxpb mutpb (start h0 d) = (s', res) ->
   forall off, res = inr off -> valid_is_parent_copy h0 pop (hp s') (lg s') off.
-Proof. intros. rewrite ?gen_varAnd_eq, ?gen_varOr_eq in *. first [ solve [eapply or_valid_is_parent_copy; eassumption] | solve [eauto 8 using or_valid_is_parent_copy] ]. Qed.
+Proof. intros; to_model; first [ solve [eapply or_valid_is_parent_copy; eassumption] | solve [eauto 8 using or_valid_is_parent_copy] ]. Qed.
 
 Lemma gen_or_assertion :
   forall G F T ltb mate_o mut_o h0 pop leb add one lambda_ cxpb mutpb d s' res,
   @gen_varOr G F T ltb leb add one mate_o mut_o pop lambda_ cxpb mutpb (start h0 d) = (s', res) ->
   leb (add cxpb mutpb) one = false -> res = inl AssertionError /\ s' = start h0 d.
-Proof. intros. rewrite ?gen_varAnd_eq, ?gen_varOr_eq in *. first [ solve [eapply or_assertion; eassumption] | solve [eauto 8 using or_assertion] ]. Qed.
+Proof. intros; to_model; first [ solve [eapply or_assertion; eassumption] | solve [eauto 8 using or_assertion] ]. Qed.
 
 Lemma gen_or_small_population_raises :
   forall G F T ltb mate_o mut_o h0 pop leb add one lambda_ cxpb mutpb d s' res,
@@ -94,7 +101,7 @@ Lemma gen_or_small_population_raises :
   forall u rest,
   leb (add cxpb mutpb) one = true -> (0 < lambda_)%Z -> d = DRandom u :: rest ->
   ltb u cxpb = true -> length pop < 2 -> res = inl ValueError /\ hp s' = h0.
-Proof. intros. rewrite ?gen_varAnd_eq, ?gen_varOr_eq in *. first [ solve [eapply or_small_population_raises; eassumption] | solve [eauto 8 using or_small_population_raises] ]. Qed.
+Proof. intros; to_model; first [ solve [eapply or_small_population_raises; eassumption] | solve [eauto 8 using or_small_population_raises] ]. Qed.
 
 Lemma gen_or_empty_population_raises :
   forall G F T ltb mate_o mut_o h0 pop leb add one lambda_ cxpb mutpb d s' res,
@@ -102,14 +109,14 @@ Lemma gen_or_empty_population_raises :
   forall u rest,
   leb (add cxpb mutpb) one = true -> (0 < lambda_)%Z -> d = DRandom u :: rest ->
   ltb u cxpb = false -> pop = [] -> res = inl IndexError /\ hp s' = h0.
-Proof. intros. rewrite ?gen_varAnd_eq, ?gen_varOr_eq in *. first [ solve [eapply or_empty_population_raises; eassumption] | solve [eauto 8 using or_empty_population_raises] ]. Qed.
+Proof. intros; to_model; first [ solve [eapply or_empty_population_raises; eassumption] | solve [eauto 8 using or_empty_population_raises] ]. Qed.
 
 Lemma gen_and_weak :
   forall G F T ltb leb add one mate_o mut_o h0 pop, wf_heap h0 -> pop_ok h0 pop ->
   forall cxpb mutpb d s' res,
   @gen_varAnd G F T ltb leb add one mate_o mut_o pop cxpb mutpb (start h0 d) = (s', res) ->
   untouched h0 pop (hp s') /\ forall off, res = inr off -> length off = length pop.
-Proof. intros. rewrite ?gen_varAnd_eq, ?gen_varOr_eq in *. first [ solve [eapply and_weak; eassumption] | solve [eauto 8 using and_weak] ]. Qed.
+Proof. intros; to_model; first [ solve [eapply and_weak; eassumption] | solve [eauto 8 using and_weak] ]. Qed.
 
 Lemma gen_and_total :
   forall G F T ltb leb add one mate_o mut_o cxpb mutpb h0 pop us rest,
@@ -141,7 +148,7 @@ Lemma gen_and_positional :
   Forall2 (fun p o => varied (lg s') o \/
                       (In (EClone p o) (lg s') /\ geno (ind_at (hp s') o) = geno (ind_at h0 p)
                        /\ fit_of (hp s') o = fit_of h0 p)) pop off.
-Proof. intros. rewrite ?gen_varAnd_eq, ?gen_varOr_eq in *. first [ solve [eapply and_positional; eassumption] | solve [eauto 8 using and_positional] ]. Qed.
+Proof. intros; to_model; first [ solve [eapply and_positional; eassumption] | solve [eauto 8 using and_positional] ]. Qed.
 
 Lemma gen_and_never :
   forall G F T ltb leb add one mate_o mut_o h0 pop, wf_heap h0 -> pop_ok h0 pop ->
@@ -152,7 +159,7 @@ Lemma gen_and_never :
   (forall o, ~ varied (lg s') o) /\
   Forall2 (fun p o => In (EClone p o) (lg s') /\ geno (ind_at (hp s') o) = geno (ind_at h0 p)
                       /\ fit_of (hp s') o = fit_of h0 p) pop off.
-Proof. intros. rewrite ?gen_varAnd_eq, ?gen_varOr_eq in *. first [ solve [eapply and_never; eassumption] | solve [eauto 8 using and_never] ]. Qed.
+Proof. intros; to_model; eapply and_never with (cxpb := cxpb) (mutpb := mutpb); eassumption. Qed.
 
 Lemma gen_and_always_mut :
   forall G F T ltb leb add one mate_o mut_o h0 pop, wf_heap h0 -> pop_ok h0 pop ->
@@ -161,7 +168,7 @@ Lemma gen_and_always_mut :
   (forall u, In (DRandom u) d -> ltb u mutpb = true) ->
   @gen_varAnd G F T ltb leb add one mate_o mut_o pop cxpb mutpb (start h0 d) = (s', inr off) ->
   forall o, In o off -> fit_of (hp s') o = None.
-Proof. intros. rewrite ?gen_varAnd_eq, ?gen_varOr_eq in *. first [ solve [eapply and_always_mut; eassumption] | solve [eauto 8 using and_always_mut] ]. Qed.
+Proof. intros; to_model; first [ solve [eapply and_always_mut; eassumption] | solve [eauto 8 using and_always_mut] ]. Qed.
 
 Lemma gen_or_reproduction_only :
   forall G F T ltb mate_o mut_o h0 pop, wf_heap h0 -> pop_ok h0 pop ->
@@ -171,7 +178,7 @@ Lemma gen_or_reproduction_only :
   (forall o, ~ varied (lg s') o) /\
   forall o, In o off -> exists p, In p pop /\ In (EClone p o) (lg s') /\
      geno (ind_at (hp s') o) = geno (ind_at h0 p) /\ fit_of (hp s') o = fit_of h0 p.
-Proof. intros. rewrite ?gen_varAnd_eq, ?gen_varOr_eq in *. first [ solve [eapply or_reproduction_only; eassumption] | solve [eauto 8 using or_reproduction_only] ]. Qed.
+Proof. intros; to_model; first [ solve [eapply or_reproduction_only; eassumption] | solve [eauto 8 using or_reproduction_only] ]. Qed.
 
 Lemma gen_or_all_varied :
   forall G F T ltb mate_o mut_o h0 pop, wf_heap h0 -> pop_ok h0 pop ->
@@ -179,4 +186,4 @@ Lemma gen_or_all_varied :
   (forall u, In (DRandom u) d -> ltb u cxpb = true \/ ltb u (add cxpb mutpb) = true) ->
   @gen_varOr G F T ltb leb add one mate_o mut_o pop lambda_ cxpb mutpb (start h0 d) = (s', inr off) ->
   forall o, In o off -> fit_of (hp s') o = None.
-Proof. intros. rewrite ?gen_varAnd_eq, ?gen_varOr_eq in *. first [ solve [eapply or_all_varied; eassumption] | solve [eauto 8 using or_all_varied] ]. Qed.
+Proof. intros; to_model; first [ solve [eapply or_all_varied; eassumption] | solve [eauto 8 using or_all_varied] ]. Qed.
